@@ -75,7 +75,7 @@ pub fn drive_eval(seed: u64, n: usize, sink: &mut Sink) -> usize {
             // ---- fixed-degree polynomials
             0 | 1 | 2 | 3 | 4 => {
                 let len = 1 + rng.below(9) as usize;
-                let (c, x) = match rng.below(6) {
+                let (c, x) = match rng.below(7) {
                     0 => {
                         // engineered cancellation: evaluate at / next to a root
                         let roots: Vec<f64> = (0..len - 1).map(|_| rng.nice() + rng.range(-3, 3) as f64).collect();
@@ -93,6 +93,8 @@ pub fn drive_eval(seed: u64, n: usize, sink: &mut Sink) -> usize {
                     2 => (coeffs(&mut rng, len), rng.float_exp(-100, -20)),
                     3 => (coeffs(&mut rng, len), rng.float_exp(20, 100)),
                     4 => ((0..len).map(|_| rng.range(-9, 9) as f64).collect(), rng.range(-12, 12) as f64 / 4.0),
+                    // special arguments: shortcuts like `if x == 1.0` live here
+                    5 => (coeffs(&mut rng, len), *rng.pick(&[1.0, -1.0, 2.0, 0.5, -0.5, 1.0f64.next_up(), f64::MIN_POSITIVE, 1e-160, -1e-160])),
                     _ => (coeffs(&mut rng, len), rng.float_exp(-6, 6)),
                 };
                 let y = poly_eval(&c, x);
